@@ -141,7 +141,7 @@ func c14Gen(t *rapid.T) C14Case {
 		c.Note = "valid-walk"
 		if chance(t, "mutate", 45) && len(els) > 0 {
 			i := uniform(t, "mutpos", len(els))
-			switch uniform(t, "mutkind", 9) {
+			switch uniform(t, "mutkind", 12) {
 			case 0: // 17 empties in total
 				for empties < 17 {
 					els = append(els[:i:i], append([]string{""}, els[i:]...)...)
@@ -174,9 +174,25 @@ func c14Gen(t *rapid.T) C14Case {
 			case 7: // an element one byte over the window
 				els[i] = strings.Repeat("a", maxLen+1)
 				c.Note = "one-byte-over-longest-name"
-			default:
+			case 8:
 				els[i] = strings.ToUpper(els[i])
 				c.Note = "upper-case-element"
+			default:
+				// one arbitrary byte (anything but SP, HTAB and comma) glued to an edge of the element
+				b := byte(rapid.IntRange(0, 255).Draw(t, "edgebyte"))
+				if chance(t, "edgebyteuniform", 70) {
+					b = byte(uniform(t, "edgebyteu", 256))
+				}
+				if b == ' ' || b == '\t' || b == ',' {
+					b = '`'
+				}
+				core := strings.Trim(els[i], " \t")
+				if chance(t, "edgeleft", 50) {
+					els[i] = string([]byte{b}) + core
+				} else {
+					els[i] = core + string([]byte{b})
+				}
+				c.Note = "arbitrary-byte-at-element-edge"
 			}
 		}
 	} else {
@@ -198,7 +214,7 @@ func c14Gen(t *rapid.T) C14Case {
 				}
 				e = strings.Repeat(pick(t, "edgebyte", []string{"a", " ", "z", "\t"}), l)
 			default:
-				const junk = "abx-, \t\x00"
+				const junk = "abx-, \t\x00I`\x89\xa0\xc9\xe0~\x7f\x0b\x0c\r\n"
 				m := uniform(t, "junklen", 8)
 				b := make([]byte, m)
 				for q := range b {
@@ -283,7 +299,7 @@ func c14Check(c C14Case, rec *Recorder) *Disc {
 	} else {
 		rec.Class("rejected")
 		switch c.Note {
-		case "exactly-17-empties", "two-ows-left", "two-ows-right", "three-byte-whitespace-element", "duplicate", "swapped", "one-byte-over-longest-name":
+		case "exactly-17-empties", "two-ows-left", "two-ows-right", "three-byte-whitespace-element", "duplicate", "swapped", "one-byte-over-longest-name", "arbitrary-byte-at-element-edge":
 			rec.NonTrivial("no", strings.Join(allowed, ","), strings.Join(lines, "\n"))
 		}
 	}
@@ -310,7 +326,7 @@ func c14Check(c C14Case, rec *Recorder) *Disc {
 func c14Prop() Prop[C14Case] {
 	return Prop[C14Case]{ID: "C14", Gen: c14Gen, Check: c14Check,
 		Rule: "generator: allowed-name sets of 1-8 names (prefixes/extensions of each other, mixed case in the configuration) x 0-4 ACRH field lines: 55% an increasing walk over the allowed names with <=1 OWS per side and <=14 empty elements, " +
-			"of which 45% get exactly one boundary mutation (17th / 16th empty element, 2 OWS on one side, 3-byte whitespace element, duplicate, swapped neighbours, element one byte over the longest name, upper case); 45% free-form elements " +
+			"of which 45% get exactly one boundary mutation (17th / 16th empty element, 2 OWS on one side, 3-byte whitespace element, duplicate, swapped neighbours, element one byte over the longest name, upper case, one arbitrary byte 0x00-0xFF glued to an edge of an element); 45% free-form elements " +
 			"(allowed names unsorted/repeated, prefix/extension/upper-case variants, runs of 0-20 empties, elements of length maxNameLen-1..+4 of name bytes or OWS, junk over {a b x - , SP HTAB NUL}) each with 0-3 OWS per side. " +
 			"Oracle: debug-off preflight approved (204 + ACAH echo) iff the reference list reader approves; browser-shaped sublists (joined, one per line, comma-space) always approved. " +
 			"non-trivial = approved with >=2 names / padding / several lines / empties, or rejected solely because of one planted boundary mutation; distinct by (allowed set, lines).",
